@@ -39,9 +39,10 @@ func (w *recLW) WriteLevel(l zerolog.Level, p []byte) (int, error) {
 type countSampler struct {
 	calls int
 	admit bool
+	last  zerolog.Level // the level the sampler was asked about (must be the EVENT's level)
 }
 
-func (s *countSampler) Sample(zerolog.Level) bool { s.calls++; return s.admit }
+func (s *countSampler) Sample(l zerolog.Level) bool { s.calls++; s.last = l; return s.admit }
 
 type countHook struct{ calls int }
 
@@ -270,7 +271,7 @@ func main() {
 					if passes && !s.nilS {
 						wantCalls = 1
 					}
-					if cs.calls != wantCalls {
+					if cs.calls != wantCalls || (cs.calls == 1 && cs.last != el) {
 						ok = false
 					}
 					wantHook := 0
@@ -282,7 +283,7 @@ func main() {
 					}
 					r.EvalHash(uint64(uint8(ll))<<32|uint64(uint8(gl))<<24|uint64(uint8(el))<<16|uint64(w.n)<<8|uint64(cs.calls)<<4|uint64(len(s.name)), (int(el) >= ll) != (int(el) >= gl))
 					if !ok {
-						r.Violation("", fmt.Sprint("gate/", s.name, el >= zerolog.Level(ll), el >= zerolog.Level(gl)), fmt.Sprintf("logger level %d, global level %d, sampler %s, WithLevel(%d): writes=%d (want %v) level seen=%d plainWrites=%d sampler calls=%d (want %d) hook calls=%d (want %d)", ll, gl, s.name, el, w.n, want, w.lvl, w.plain, cs.calls, wantCalls, hk.calls, wantHook), nil)
+						r.Violation("", fmt.Sprint("gate/", s.name, el >= zerolog.Level(ll), el >= zerolog.Level(gl)), fmt.Sprintf("logger level %d, global level %d, sampler %s, WithLevel(%d): writes=%d (want %v) level seen=%d plainWrites=%d sampler calls=%d (want %d; asked about level %d) hook calls=%d (want %d)", ll, gl, s.name, el, w.n, want, w.lvl, w.plain, cs.calls, wantCalls, cs.last, hk.calls, wantHook), nil)
 					}
 				}
 			}
